@@ -20,16 +20,22 @@ Free == Calls \ Busy
 
 GSelect == \E c \in Free : \E e \in Cands : \E k \in Kinds :
              /\ c = CHOOSE x \in Free : \A y \in Free : x <= y
-             /\ Select(c, e, k) /\ Rec("Select", c, e, k, FALSE, 0, SetToSeq(Cands)) /\ UNCHANGED bad
+             /\ \/ Select(c, e, k) /\ Rec("Select", c, e, k, FALSE, 0, SetToSeq(Cands))      \* e listens
+                \/ Refused(c, e, k) /\ Rec("Refused", c, e, k, FALSE, 0, SetToSeq(Cands))    \* e does not: the call fails at once
+             /\ UNCHANGED bad
 GDone(pct) == \E c \in Busy :
              LET e   == infl[c].ep
                  pf  == IF e \in bad THEN PFailBad ELSE PFailGood
                  ok  == pct > pf
              IN CallDone(c, ok) /\ Rec("CallDone", c, e, "", ok, 0, <<>>) /\ UNCHANGED bad
-GCheck == CheckAll(AllTrue) /\ Rec("Check", 0, 0, "", FALSE, 0, <<>>) /\ UNCHANGED bad
+\* ReConnect inside checkActive succeeds exactly when the endpoint listens (the driver makes sure the client has noticed a lost connection)
+GCheck == CheckAll(up) /\ Rec("Check", 0, 0, "", FALSE, 0, <<>>) /\ UNCHANGED bad
 GAdvance(flip) == \E d \in Steps :
              /\ Advance(d) /\ Rec("Advance", 0, 0, "", FALSE, d, <<>>)
              /\ bad' = IF flip \in Eps THEN (IF flip \in bad THEN bad \ {flip} ELSE bad \cup {flip}) ELSE bad
+
+\* an endpoint stops listening / comes back (only with Faults)
+GFault(x) == SetUp(x, ~up[x]) /\ Rec(IF up[x] THEN "Down" ELSE "Up", 0, x, "", FALSE, 0, <<>>) /\ UNCHANGED bad
 
 \* weights: with a call in flight mostly finish it; otherwise 50 select / 22 check / 28 advance
 GenNext ==
@@ -40,6 +46,7 @@ GenNext ==
      ELSE IF Busy # {} /\ (Free = {} \/ r <= 60) THEN GDone(p)
      ELSE IF r <= 50 THEN GSelect
      ELSE IF Busy = {} /\ r <= 72 THEN GCheck
+     ELSE IF Busy = {} /\ Faults /\ r <= 82 THEN GFault(RandomElement(Eps))
      ELSE IF Busy = {} THEN GAdvance(fl)
      ELSE GSelect
 GenInit == Init /\ hist = <<>> /\ bad \in SUBSET Eps
